@@ -53,6 +53,10 @@ def main() -> int:
             from checks import c15
 
             return c15.run(tier, a.seed)
+        if a.prop == "C16":
+            from checks import c16
+
+            return c16.run(tier, a.seed)
         if a.prop == "C17":
             from checks import c17
 
